@@ -7,7 +7,7 @@ peak_k - g <= |jerk|.
 import itertools
 
 from .. import core
-from ..firmware import RATE_MAX, t3_rate_closed, t3_states
+from ..firmware import RATE_MAX, t3_in_domain, t3_rate_closed, t3_states
 
 PROPERTY = "C17"
 P22, P27, P29, P30, P31 = 1 << 22, 1 << 27, 1 << 29, 1 << 30, 1 << 31
@@ -62,6 +62,20 @@ def window_edge_rows():
                     for accel in (j_s * (2 - ticks) + sign * k, -j_s - sign * k):
                         for rate in (0, 1000000000, -1000000000, 123456789):
                             rows.add((rate, accel, j_s))
+    # the same with the largest jerks a move of 4..12 ticks can carry (1e8 .. 6e8: the hair
+    # k / |jerk| is then below one part in 1e9 of T), the start rate chosen so that the whole
+    # parabola is centred in the 32-bit range
+    for jerk in (100000007, 160000000, 1 << 28, 300000000, 430000000, 600000000):
+        for sign in (1, -1):
+            j_s = sign * jerk
+            for ticks in (4, 5, 6, 7, 8, 9, 10, 11, 12):
+                for k in range(4):
+                    for accel in (j_s * (2 - ticks) + sign * k, -j_s - sign * k):
+                        seen = [t3_rate_closed(0, accel, j_s, t) for t in range(1, ticks + 1)]
+                        for rate in (-(min(seen) + max(seen)) // 2, -min(seen) - RATE_MAX,
+                                     RATE_MAX - max(seen)):
+                            if abs(rate) <= RATE_MAX and t3_in_domain(rate, accel, j_s, ticks):
+                                rows.add((rate, accel, j_s))
     return sorted(rows)
 
 
